@@ -61,15 +61,13 @@ def check(seed, pid, tier):
     rc, out = apply(seed)
     if rc: print("patch does not apply:", out); return 2
     t0 = time.time()
-    r = subprocess.run([os.path.join(VERIF, "check"), pid, "--tier", tier], cwd=VERIF, env=dict(os.environ, VERIF_REPO=WT), capture_output=True, text=True)
+    r = subprocess.run([os.path.join(VERIF, "check"), pid, "--tier", tier], cwd=VERIF, env=dict(os.environ, VERIF_REPO=WT, VERIF_EVIDENCE_DIR="/tmp/verif-sens-evidence", VERIF_REPLAY_OUT="/tmp/verif-sens-replays"), capture_output=True, text=True)
     print("%s against %s: rc=%d (%.0fs)" % (pid, os.path.basename(seed.rstrip('/')), r.returncode, time.time() - t0))
     for l in r.stdout.splitlines():
         if l.startswith(("violation detail", "VIOLATION", "OK ", "KNOWN")): print("   " + l[:400])
     if r.returncode == 2: print(r.stderr[-1500:])
     reset()
-    sh(["git", "-C", VERIF, "checkout", "--", "evidence"])
-    sh(["git", "-C", VERIF, "clean", "-fq", "replays"])  # replay files written against the scratch tree do not belong to /repo
-    return r.returncode
+        return r.returncode
 if __name__ == "__main__":
     a = sys.argv[1:]
     tier = "quick"
